@@ -1,0 +1,36 @@
+//go:build verif
+
+package eio
+
+import (
+	"github.com/karagenc/socket.io-go/engine.io/parser"
+)
+
+type verifRecordingTransport struct {
+	name    string
+	batches [][]*parser.Packet
+}
+
+func (t *verifRecordingTransport) Name() string { return t.name }
+func (t *verifRecordingTransport) Handshake() (*parser.HandshakeResponse, error) {
+	return nil, nil
+}
+func (t *verifRecordingTransport) Run() {}
+func (t *verifRecordingTransport) Send(packets ...*parser.Packet) {
+	t.batches = append(t.batches, append([]*parser.Packet(nil), packets...))
+}
+func (t *verifRecordingTransport) Discard() {}
+func (t *verifRecordingTransport) Close()   {}
+
+// VerifBatch runs the client's real batching routine (writeWritablePackets, through Send)
+// against a recording transport with the given name and returns the batches handed to it.
+func VerifBatch(transportName string, maxPayload int64, packets []*parser.Packet) [][]*parser.Packet {
+	t := &verifRecordingTransport{name: transportName}
+	s := &clientSocket{
+		transport:  t,
+		maxPayload: maxPayload,
+		debug:      NewNoopDebugger(),
+	}
+	s.Send(packets...)
+	return t.batches
+}
